@@ -326,6 +326,9 @@ def main():
                     h, r.get("tags") or "release", v.get("label"), verdict, detail, v.get("replay")))
 
     extra_cov = {}
+    esc = [r for r in results if r.get("escape_analysis_cmd")]
+    if esc:
+        extra_cov["escape_analysis"] = sorted({"%s -> %d heap sites (escapes to heap / moved to heap)" % (r["escape_analysis_cmd"], r["escape_heap_sites"]) for r in esc})
     if spec.get("url_model_validation"):
         res, out = url_model_validation()
         if res is None or res[1] != 0:
